@@ -22,13 +22,14 @@ type RouterCfg struct {
 	CustomNA     bool
 	FallbackMeth []string // methods of the "/*" route; nil = none registered
 	Order        []int    // order in which the options are passed to rux.New (a permutation; nil = fixed)
+	Encoded      bool     // UseEncodedPath (only used by the twin monitor C07: the reference models work on the decoded path)
 }
 
 func (c RouterCfg) Describe() any {
 	return map[string]any{
 		"HandleMethodNotAllowed": c.NotAllowed, "HandleFallbackRoute": c.Fallback, "StrictLastSlash": c.Strict,
 		"cache_capacity": c.CacheCap, "InterceptAll": c.Intercept, "custom_NotFound": c.CustomNF, "custom_NotAllowed": c.CustomNA,
-		"fallback_route_methods": strings.Join(c.FallbackMeth, ","), "option_order": c.Order,
+		"fallback_route_methods": strings.Join(c.FallbackMeth, ","), "option_order": c.Order, "UseEncodedPath": c.Encoded,
 	}
 }
 
@@ -48,6 +49,9 @@ func (c RouterCfg) Options() []func(*rux.Router) {
 	}
 	if c.Intercept != "" {
 		opts = append(opts, rux.InterceptAll(c.Intercept))
+	}
+	if c.Encoded {
+		opts = append(opts, rux.UseEncodedPath)
 	}
 	if len(c.Order) > 0 {
 		// the outcome must not depend on the order in which options are given
